@@ -103,7 +103,7 @@ def run(ctx):
 
     # frame of the modules under contract (no state kept between calls, arguments left alone): same analysis as C19
     from props import C19 as _C19
-    ctx.guard(_C19.frame_obligations, ctx, py, "C06", {'error_model', 'measurements', 'transform'})
+    ctx.guard(_C19.frame_obligations, ctx, py, "C06", {'error_model', 'measurements', 'transform', 'util'})
 
 
 # -----------------------------------------------------------------------------------------------
